@@ -37,7 +37,9 @@ Definition o02 (c : case) : bool :=
       && (negb (so_all_have o) || match so_extracted_same o with Some true => true | _ => false end)
   end.
 (* C09, end to end: whatever a remote that downloads from the client received is exactly what it asked for, out of the
-   verified content, and arrived while the client had it unchoked; nothing crashed *)
+   verified content; nothing crashed.  (The end-to-end runs handle peer commands only -- no choke rotation -- so the client
+   never chokes a leech there: so_up_choked = 0 is kept as a sanity clause; "only while unchoked" is the business of the
+   task and manager parts of C09.) *)
 Definition o09 (c : case) : bool :=
   match c with
   | CSys _ _ _ None => false
